@@ -10,8 +10,8 @@ pub fn cfg() -> GenCfg {
 }
 
 pub fn run(ctx: &mut RunCtx) -> i32 {
-    let cases = ctx.cases(6000, 150_000);
-    let n_inits = ctx.tier.pick(8, 32);
+    let cases = ctx.cases(40_000, 1_500_000);
+    let n_inits = ctx.tier.pick(8, 16);
     let (excl, known_seen) = super::activate_exclusions(ctx, "C01");
     let mut cfg = cfg();
     cfg.excl = excl.clone();
